@@ -211,14 +211,14 @@ pub fn run(tier: &str) -> Report {
     let mut reg_bodies: Vec<(String, &'static str)> = vec![];
     let mut seen = BTreeSet::new();
     {
-        let (k, jumps, bound) = if thorough { (4, 2, 4) } else { (3, 2, 2) };
+        let (k, jumps, bound) = if thorough { (4, 2, 4) } else { (3, 2, 3) };
         for kk in 1..=k {
             explore_dfs(bound, 200_000, &|ch| crate::c07::gen_flat(ch, kk, jumps), &mut |_, (b, _)| { if seen.insert(b.clone()) { reg_bodies.push((b, "flat")); } });
         }
         let (b2, d2) = if thorough { (3, 2) } else { (2, 2) };
         explore_dfs(b2, 200_000, &|ch| { let mut g = crate::c06::GB { ch, marker: 0, n_struct: 0, has_inner_label_or_nest: false, max_depth: d2, count_jmp: true }; let b = g.block(d2, false); format!("{{ {b} }}") },
             &mut |_, b| { if seen.insert(b.clone()) { reg_bodies.push((b, "block")); } });
-        let (b3, d3) = if thorough { (3, 2) } else { (1, 2) };
+        let (b3, d3) = if thorough { (3, 2) } else { (2, 2) };
         explore_dfs(b3, 200_000, &|ch| { let mut g = crate::gen::G::new(ch, &table); g.max_depth = d3; g.body(2) }, &mut |_, b| { if seen.insert(b.clone()) { reg_bodies.push((b, "expr")); } });
     }
     let mut seeds: Vec<Seed> = vec![];
@@ -235,7 +235,7 @@ pub fn run(tier: &str) -> Report {
             }
         }
         let mut seen_plain = BTreeSet::new();
-        let (pn, pb) = if thorough { (4, 4) } else { (3, 2) };
+        let (pn, pb) = if thorough { (4, 4) } else { (3, 3) };
         for n in 1..=pn { explore_dfs(pb, 100_000, &|ch| gen_plain(ch, &host, n), &mut |_, b| { if seen_plain.insert(b.clone()) { bodies.push((b, "plain")); } }); }
         rep.transitions += bodies.len() as u64;
         let results = par_map(&bodies, Some(deadline), |_, (b, _)| {
